@@ -89,7 +89,7 @@ impl Property for C04 {
         // arguments
         let nargs = if tight && rng.chance(5, 6) {
             // enough short arguments for the system budget to close batches
-            rng.urange(50, 600)
+            rng.urange(100, 1500)
         } else if rng.chance(1, 12) {
             0
         } else {
@@ -210,8 +210,11 @@ impl Property for C04 {
             // leaves only a few hundred bytes to the system limiter
             sc.rlimit_stack = Some(512 * 1024);
             let budget = base + if rng.chance(1, 4) { rng.urange(120, 1500) } else { rng.urange(4500, 12000) };
-            let pad = 131072usize - 2048 - budget;
             let nvars = *rng.pick(&[1usize, 1, 2, 40]);
+            // leave `budget` bytes even under the most conservative accounting
+            // (a pointer per argv/envp entry, one page of slack), so that a
+            // single short argument always fits
+            let pad = 131072usize - 2048 - 4096 - 8 * (nvars + 2 + sc.cmd.len()) - budget;
             let mut env = vec![];
             let mut left = pad;
             for i in 0..nvars {
